@@ -291,29 +291,34 @@ theorem trc_finishSeqAttribute (opts : DecOpts) (st : SeqAttState) (n : Nat) (mp
   unfold finishSeqAttribute; dsimp only
   repeat' trc_step
 
-theorem trc_selectScheme (kind : Nat) (pointIds : Array Nat) (parent : Option Parent) {d : Nat} :
-    TrC bs X d (selectScheme kind pointIds parent) (fun _ => d) (fun _ => True) := by
-  unfold selectScheme; dsimp only
+theorem trc_readSchemeEb (kind : Nat) {d : Nat} :
+    TrC bs X d (readSchemeEb kind) (fun _ => d) (fun _ => True) := by
+  unfold readSchemeEb; dsimp only
   repeat' trc_step
 
-theorem trc_readRawValues (hX : ∀ e, ebX e → X e) (pre20 : Bool) (ne nc : Nat) {d : Nat} :
-    TrC bs X d (readRawValues pre20 ne nc) (fun _ => d) (fun _ => True) := by
-  unfold readRawValues; dsimp only
+theorem trc_parentSourcesEb (scheme : Scheme) (pointIds : Array Nat) (parent : Option Parent) {d : Nat} :
+    TrC bs X d (parentSourcesEb scheme pointIds parent) (fun _ => d) (fun _ => True) := by
+  unfold parentSourcesEb; dsimp only
+  repeat' trc_step
+
+theorem trc_readCodedValuesEb (pre20 : Bool) (nv nc : Nat) {d : Nat} :
+    TrC bs X d (readCodedValuesEb pre20 nv nc) (fun _ => d) (fun _ => True) := by
+  unfold readCodedValuesEb
   repeat' trc_step
 
 set_option maxHeartbeats 4000000 in
-theorem trc_applyScheme (scheme : Scheme) (nc : Nat) (md : MeshData) (pos : PosSource) (posF : PosSourceF)
+theorem trc_applySchemeEb (ver : Nat) (scheme : Scheme) (md : MeshData) (pos : PosSource) (posF : PosSourceF) (nc : Nat)
     (vals : Array Int) {d : Nat} (hnf : md.t.numFaces ≤ d) :
-    TrC bs X d (applyScheme scheme nc md pos posF vals) (fun _ => d) (fun _ => True) := by
-  unfold applyScheme; dsimp only
+    TrC bs X d (applySchemeEb ver scheme md pos posF nc vals) (fun _ => d) (fun _ => True) := by
+  unfold applySchemeEb; dsimp only
   repeat' trc_step
 
-attribute [local irreducible] selectScheme readRawValues applyScheme decodeTransformParams in
+attribute [local irreducible] readSchemeEb parentSourcesEb readCodedValuesEb applySchemeEb decodeTransformParams in
 theorem trc_decodeIntegerValuesEb (hX : ∀ e, ebX e → X e) (kind ne nc ac : Nat) (md : MeshData) (pointIds : Array Nat)
     (parent : Option Parent) {d : Nat} (hnf : md.t.numFaces ≤ d) :
     TrC bs X d (decodeIntegerValuesEb kind ne nc ac md pointIds parent) (fun _ => d) (fun _ => True) := by
   unfold decodeIntegerValuesEb; dsimp only
-  repeat' (first | exact trc_selectScheme _ _ _ | exact trc_readRawValues hX _ _ _ | (exact trc_applyScheme _ _ _ _ _ _ hnf) | exact trc_decodeTransformParams _ _ | trc_step)
+  repeat' (first | exact trc_readSchemeEb _ | exact trc_parentSourcesEb _ _ _ | exact trc_readCodedValuesEb _ _ _ | (exact trc_applySchemeEb _ _ _ _ _ _ _ hnf) | exact trc_decodeTransformParams _ _ | trc_step)
 
 theorem trc_createAttributeDecoders (ver numAtt numDecoders : Nat) {d : Nat} :
     TrC bs X d (createAttributeDecoders ver numAtt numDecoders) (fun _ => d) (fun _ => True) := by
@@ -365,7 +370,7 @@ theorem trc_decodeOneDecoder (hX : ∀ e, ebX e → X e) (opts : DecOpts) (ver :
     TrC bs X d (decodeOneDecoder opts ver mesh posAtt all i dec mine done) (fun _ => d) (fun _ => True) := by
   unfold decodeOneDecoder; dsimp only
   repeat' (first
-    | exact trc_decodePortables hX _ _ _ _ _ _ _ _ (by dsimp only; split <;> exact hnf) _ _
+    | exact trc_decodePortables hX _ _ _ _ _ _ _ _ (by dsimp only [viewOfDecoder]; split <;> exact hnf) _ _
     | exact trc_decodeDataNeeded _ _ | exact trc_transformCheck _ _ _ | trc_step)
 
 theorem trc_decodeDecoders (hX : ∀ e, ebX e → X e) (opts : DecOpts) (ver : Nat) (mesh : Mesh) (posAtt : Option Nat)
